@@ -64,6 +64,9 @@ def run_one(m, worker):
             res[pid] = dict(fired=fired, rule=rule_ok, rc=p.returncode, compile_fail=compile_fail,
                             lines=[l for l in out.split("\n") if "rule=" in l][:6])
         det = all(r["fired"] and r["rule"] for r in res.values())
+        if m.get("negative"):
+            anyf = any(r["fired"] for r in res.values())
+            return dict(id=m["id"], status="FALSE-ALARM" if anyf else "silent-ok", res=res, negative=True)
         return dict(id=m["id"], status="detected" if det else ("compile_fail" if any(r["compile_fail"] for r in res.values()) else "MISSED"), res=res)
     finally:
         shutil.rmtree(scratch, ignore_errors=True)
@@ -92,11 +95,14 @@ def main():
             r = fu.result()
             results.append(r)
             extra = ""
-            if r["status"] != "detected":
+            if r["status"] not in ("detected", "silent-ok"):
                 extra = " " + json.dumps(r.get("res", r.get("why")))[:400]
             print("%-10s %s%s" % (r["status"], r["id"], extra), flush=True)
     det = sum(1 for r in results if r["status"] == "detected")
-    print("sensitivity: detected %d/%d (skipped %d)" % (det, len([r for r in results if r["status"] != "skipped"]), len([r for r in results if r["status"] == "skipped"])))
+    pos = [r for r in results if r["status"] != "skipped" and not r.get("negative")]
+    neg = [r for r in results if r.get("negative")]
+    print("sensitivity: detected %d/%d (skipped %d); negative controls silent %d/%d" % (
+        det, len(pos), len([r for r in results if r["status"] == "skipped"]), sum(1 for r in neg if r["status"] == "silent-ok"), len(neg)))
     if a.json:
         with open(a.json, "w") as fh:
             json.dump(results, fh, indent=1)
